@@ -553,6 +553,48 @@ def rule_fold(cx):
                    'one-shot path applies the same member to (src, data.size) from the same seed' if bad is None else bad)
 
 
+def rule_from_medium(cx, rule='C10.e'):
+    """What validation compares with the stored checksum is calculated from octets READ FROM THE MEDIUM IN THIS CALL.  The
+    property speaks of the image on the medium ("any alteration of a stored octet is reported", "succeeds only if the
+    checksum on the medium matches the data image on the medium"): an image or a checksum remembered in the instance from an
+    earlier call (an auxiliary buffer kept as a copy of the medium, a cached sum) answers for what the medium held THEN.
+    So on every path of persistent_calculate_checksum (helpers looked through) that reports SUCCESS: every checksum step
+    processes a buffer that a block.read on the same path, before the step, has filled; and a SUCCESS without any read is
+    possible only when there is nothing to read (data.size == 0 entailed)."""
+    ck = cx.ck
+    ps = cx.paths('persistent_calculate_checksum', rule)
+    if ps is None:
+        return
+    where = cx.where('persistent_calculate_checksum')
+    OK = C(cx.enums.get('PERSISTENT_ACCESS_SUCCESS'))
+    bad = None
+    nok = 0
+    for p in ps:
+        if p.end != 'return' or p.ret is None or p.ret[0] != 'struct' or dict(p.ret[2]).get('access') != OK:
+            continue
+        nok += 1
+        reads = [e for e in medium_calls(p) if e.name == 'block.read']
+        steps = [e for e in p.effects if (e.kind == 'icall' and e.name.startswith('checksum.process.c')) or (e.kind == 'call' and e.name == 'persistent_checksum')]
+        for e in steps:
+            buf = strip_cast(e.args[1] if e.kind == 'call' else e.args[0])
+            before = [m for m in reads if p.effects.index(m) < p.effects.index(e) and strip_cast(addr_len(m)[2]) == buf]
+            # ... or a loop the path has come through has filled it (the iterations are paths of their own)
+            mine = {id(n) for n, _ in p.loops}
+            inloop = [q for q in ps if q.end == 'loopback' and q.loops and id(q.loops[-1][0]) in mine
+                      and any(m.name == 'block.read' and strip_cast(addr_len(m)[2]) == buf for m in medium_calls(q))]
+            if not before and not inloop:
+                bad = bad or ('a path reporting SUCCESS under {%s} calculates the checksum over %s (%s) without having read that buffer from the medium in this call: '
+                              'what is compared with the stored checksum is what the instance remembers, not what the medium holds - an altered or torn medium validates'
+                              % ('; '.join(fmt(c) for c in p.cond_terms()[-4:]), fmt(buf), e.where()))
+        if not reads and not steps and not p.loops and not cx.eng.entails(p, L(DATA_SIZE)):
+            bad = bad or ('a path reports a calculated checksum as SUCCESS under {%s} without reading the medium although data.size may be positive'
+                          % '; '.join(fmt(c) for c in p.cond_terms()[-4:]))
+    if nok == 0:
+        return ck.broken(rule, 'persistent_calculate_checksum:from-medium', where, 'no path reporting SUCCESS found')
+    ck.verdict(bad is None, rule, 'persistent_calculate_checksum:from-medium', where,
+               'every successful calculation folds buffers filled by block.read in the same call (%d paths)' % nok if bad is None else bad)
+
+
 def rule_validate(cx):
     """C10.e"""
     ck = cx.ck
@@ -988,6 +1030,7 @@ def run_c10(ck):
     rule_fold(cx)
     rule_width(cx)
     rule_validate(cx)
+    rule_from_medium(cx)
     rule_reset(cx)
     # "after a successful store validation succeeds" needs every successful store to end with the checksum write of the
     # checksum just computed: the order rule of C11.b is an obligation of this property too
@@ -1016,6 +1059,7 @@ def run_c11(ck):
         return orig(ok, 'C11.v' if rule == 'C10.e' else rule, key, where, detail, **kw)
     ck.verdict = v2
     rule_validate(cx)
+    rule_from_medium(cx)
     ck.verdict = orig
     # a checksum compared, stored or fetched at less than its configured width lets a torn checksum write validate
     rule_width(cx, 'C11.v', ('persistent_match', 'persistent_store_checksum', 'persistent_fetch_checksum'))
